@@ -207,6 +207,9 @@ func Convert(value any, typ reflect.Type) (any, error) { //nolint: gocyclo
 			}
 			return result.Interface(), nil
 		} else if r, ok := value.(Range); ok {
+			if r.Len() > maxRangeArrayLen {
+				return nil, typeErrorf("can't convert a range of %d elements to an array", r.Len())
+			}
 			return r.AsArray(), nil
 		}
 		switch rv.Kind() {
